@@ -150,7 +150,10 @@ pub fn gen_c01(rng: &mut Rng, _k: usize, _tier: &str) -> J {
     }
     // units may exceed the multiplicity assumption: many orders per user with a small max multiplicity
     json!({"sql": sql, "data_seed": rng.next() % 100000, "n_users": rng.range(2, 25), "max_orders": *rng.pick(&[1i64, 3, 12, 40]),
-           "eps": 1.0, "delta": 1e-4, "mult": *rng.pick(&[1.0, 2.0, 100.0]), "mult_share": *rng.pick(&[1.0, 0.01]), "remove": [rng.below(25), rng.below(25)]})
+           "eps": 1.0, "delta": 1e-4, "mult": *rng.pick(&[1.0, 2.0, 100.0]), "mult_share": *rng.pick(&[1.0, 0.01]), "remove": [rng.below(25), rng.below(25)],
+           // the number of rows per unit is whatever the data says: a privacy unit declared as a key of `users` may still own several rows there
+           // (the declaration only sets the assumed multiplicity to 1; the clipping has to enforce the bound)
+           "dup_users": rng.chance(1, 4)})
 }
 
 /// the Map nodes that add clamped Gaussian noise, with the (column, σ, C) of each noised column
@@ -180,8 +183,16 @@ pub fn eval_c01(case: &J) -> Outcome {
     };
     let mut maps = vec![]; noise_maps(dp.relation(), &mut maps, &mut vec![]);
     if maps.is_empty() { out.tag("trivial"); return out; }
-    let data = data_of(case);
+    let mut data = data_of(case);
     let n_users = data.users.len() as u64;
+    if case["dup_users"] == true {
+        out.tag("unit-owns-several-user-rows");
+        let extra: Vec<Vec<Cell>> = data.users.iter().filter(|r| matches!(r[0], Cell::Int(i) if i % 2 == 0)).flat_map(|r| {
+            let mut a = r.clone(); a[1] = Cell::Int(100); a[3] = Cell::Real(1000.0);
+            let mut b = r.clone(); b[1] = Cell::Int(0); b[3] = Cell::Real(999.75);
+            vec![a, b] }).collect();
+        data.users.extend(extra);
+    }
     let mut clipped_active = false;
     for rm in case["remove"].as_array().unwrap() {
         let uid = (rm.as_u64().unwrap() % n_users.max(1)) as i64;
